@@ -165,7 +165,7 @@ class Subject:
         self.jedi = jedi
         from simkit import canon as cm
         self.cm = cm
-        self.canon = cm.Canon(world)
+        self.canon = cm.Canon(world, outer=root)
         self.scripts = {}
         self.script_ids = {}     # sid -> set of inference-state ids seen on the wire
         self.script_gen = {}     # sid -> generation index at creation
@@ -516,15 +516,26 @@ class Subject:
         """order: which accessor an editor calls first (preview the diff, then
         look at / apply the code - or the other way round)"""
         diff_first = None
-        if order != 'code_first':
+        if order not in ('code_first', 'cf_diff_first'):
             diff_first = self.canon.text(r.get_diff())
         files = {}
+        cf_unstable = []
         for p, cf in sorted(r.get_changed_files().items(), key=lambda kv: str(kv[0])):
-            files[self.canon.path(p) or '<pathless>'] = cf.get_new_code()
+            if order == 'cf_diff_first':
+                # the caller keeps the ChangedFile object and previews ITS diff before reading its code
+                d1 = cf.get_diff()
+                code = cf.get_new_code()
+                if cf.get_diff() != d1:
+                    cf_unstable.append(self.canon.path(p))
+            else:
+                code = cf.get_new_code()
+            files[self.canon.path(p) or '<pathless>'] = code
         renames = [[self.canon.path(a), self.canon.path(b)] for a, b in r.get_renames()]
         diff = self.canon.text(r.get_diff())
         out = {'files': files, 'renames': renames, 'diff': diff if diff_first is None else diff_first,
                'diff_again': diff}
+        if cf_unstable:
+            out['cf_diff_unstable'] = cf_unstable
         return out
 
     def op_refactor_inspect(self, op):
